@@ -63,6 +63,7 @@ type c17Meta struct {
 	RID      string `json:"rid,omitempty"`
 	RIDCls   string `json:"rid_class,omitempty"` // own-pending | own-answered | other-pending | other-answered | unknown | empty | n/a
 	RIDOwner string `json:"rid_owner,omitempty"`
+	Victim   string `json:"victim,omitempty"` // crafted request ID: the other backend's request it is meant to reach
 	Target   string `json:"target,omitempty"` // admin: backend the call is about
 	History  bool   `json:"history,omitempty"`
 }
@@ -92,6 +93,7 @@ type c17World struct {
 	Cases  []*c17Case `json:"cases"`
 	Bs     []*c17B    `json:"-"`
 	Exotic bool       `json:"-"`
+	Sep    string     `json:"-"` // related-ID world: backend i+1 is named <backend i><Sep><word>
 	owned  map[string]map[string]bool
 	slow   bool
 }
@@ -111,11 +113,23 @@ func c17GenWorld(rng *rand.Rand, w int, quick bool) *c17World {
 	if w%7 == 6 {
 		n = 3
 	}
+	words := []string{"", "prod", "eu"}
+	if w%5 == 2 {
+		// IDs related across a separator: "team", "team<sep>prod", "team<sep>prod<sep>eu"
+		wd.Sep = c17Seps[(w/5)%len(c17Seps)]
+		n = 2 + (w/5/len(c17Seps))%2
+	}
 	sharedAgent := n >= 2 && w%4 == 1
 	for i := 0; i < n; i++ {
 		id := fmt.Sprintf("bk%dx%d", w, i)
 		if wd.Exotic {
 			id = fmt.Sprintf("bk%d\"x:%d q", w, i)
+		}
+		if wd.Sep != "" {
+			id = fmt.Sprintf("team%dz", w)
+			for k := 1; k <= i; k++ {
+				id += wd.Sep + words[k]
+			}
 		}
 		b := &c17B{Rec: c17BackendRec{ID: id, BackendUser: fmt.Sprintf("agent%d-w%d@sa.example.com", i, w)}}
 		if sharedAgent && i == 1 {
@@ -139,10 +153,17 @@ func c17GenWorld(rng *rand.Rand, w int, quick bool) *c17World {
 		}
 		nPending := 1 + rng.Intn(2)
 		nAnswered := rng.Intn(2)
-		for k := 0; k < nPending+nAnswered; k++ {
+		extra := 0
+		if wd.Sep != "" && i < n-1 {
+			extra = 1 // a pending request whose ID starts with the next backend's suffix
+		}
+		for k := 0; k < nPending+nAnswered+extra; k++ {
 			rid := fmt.Sprintf("rq%dx%dx%d", w, i, k)
 			if wd.Exotic {
 				rid = fmt.Sprintf("rq%d:%d\"%d", w, i, k)
+			}
+			if k == nPending+nAnswered {
+				rid = words[i+1] + wd.Sep + fmt.Sprintf("cx%dx%d", w, i)
 			}
 			secret := fmt.Sprintf("sec%dx%dx%d-%08x", w, i, k, rng.Uint32())
 			user := b.Rec.EndUser
@@ -151,7 +172,7 @@ func c17GenWorld(rng *rand.Rand, w int, quick bool) *c17World {
 			}
 			rq := &c17Req{RID: rid, User: user, Secret: secret,
 				Contents: fmt.Sprintf("POST %sdoc/%s HTTP/1.1\r\nHost: proxy.example\r\nCookie: session=%s\r\nContent-Length: %d\r\n\r\nbody-%s", b.Rec.PathPrefixes[0], secret, secret, len(secret)+5, secret)}
-			if k >= nPending {
+			if k >= nPending && k < nPending+nAnswered {
 				rq.Answered = true
 				rq.Answer = fmt.Sprintf("HTTP/1.1 200 OK\r\nX-Answer: ans-%s\r\nContent-Length: 2\r\n\r\nok", secret)
 			}
@@ -172,6 +193,8 @@ func c17GenWorld(rng *rand.Rand, w int, quick bool) *c17World {
 	}
 	return wd
 }
+
+var c17Seps = []string{":", "/", "|", "\"", " ", ".", "%", "\\"}
 
 type c17Ident struct {
 	cls   string
@@ -290,6 +313,100 @@ func c17GenCases(rng *rand.Rand, wd *c17World, keepFrac float64, history bool) {
 	c = wd.agentCall(c17Ident{"stranger", idents[1].oauth}, "requests-of-everybody", b0.Rec.ID, "other", b0.Reqs[0].RID, "other-pending", b0.Rec.ID)
 	c.Meta.Kind = "agent-other-path"
 	wd.add(c)
+
+	// request IDs crafted so that (backend, request ID) read across the separator names another backend's request
+	if wd.Sep != "" {
+		words := []string{"", "prod", "eu"}
+		craft := func(att *c17B, rid string, victim *c17B, vrid string) {
+			for _, ep := range []string{"request", "response"} {
+				c := wd.agentCall(c17Ident{"agent", &e3OAuth{Email: att.Rec.BackendUser}}, ep, att.Rec.ID, "own", rid, "crafted-collision", victim.Rec.ID)
+				c.Meta.Victim = vrid
+				wd.add(c)
+			}
+		}
+		for i := 0; i+1 < len(wd.Bs); i++ {
+			for j := i + 1; j < len(wd.Bs); j++ {
+				lo, hi := wd.Bs[i], wd.Bs[j]
+				rest := strings.TrimPrefix(hi.Rec.ID, lo.Rec.ID+wd.Sep) // "prod" or "prod<sep>eu"
+				for _, rq := range hi.Reqs {
+					craft(lo, rest+wd.Sep+rq.RID, hi, rq.RID) // the shorter-named backend reaching into the longer-named one
+				}
+				for _, rq := range lo.Reqs {
+					if strings.HasPrefix(rq.RID, rest+wd.Sep) {
+						craft(hi, strings.TrimPrefix(rq.RID, rest+wd.Sep), lo, rq.RID) // and the reverse
+					}
+				}
+			}
+		}
+		_ = words
+	}
+
+	// scripted history: the same backend ID is registered again for another agent account and end user
+	targets := []*c17B{wd.Bs[0]}
+	if len(wd.Bs) > 1 {
+		targets = append(targets, wd.Bs[len(wd.Bs)-1])
+	}
+	for ti, bt := range targets {
+		var pend *c17Req
+		for _, rq := range bt.Reqs {
+			if !rq.Answered && pend == nil {
+				pend = rq
+			}
+		}
+		oldAgent := c17Ident{"old-agent", &e3OAuth{Email: bt.Rec.BackendUser}}
+		newAgent := c17Ident{"new-agent", &e3OAuth{Email: fmt.Sprintf("successor%d-%s@sa.example.com", ti, w)}}
+		oldUser := pend.User
+		newRec := c17BackendRec{ID: bt.Rec.ID, BackendUser: newAgent.oauth.Email, EndUser: fmt.Sprintf("moved%d-%s@u.example.com", ti, w), PathPrefixes: bt.Rec.PathPrefixes}
+		step := 0
+		hist := func(c *c17Case) *c17Case {
+			c.Meta.History = true
+			c.Keep = step > 0
+			step++
+			return wd.add(c)
+		}
+		adminPost := func(op string, rec c17BackendRec) {
+			body, _ := json.Marshal(rec)
+			c := &c17Case{Meta: c17Meta{Kind: "admin", Endpoint: op, Ident: "ae-admin", IsAdmin: true, Target: rec.ID, Email: "root-" + w + "@corp.example.com"}}
+			c.Call = e3Call{Module: "api", Method: "POST", Path: "/api/backends", Body: string(body), AEUser: "root-" + w + "@corp.example.com", AEAdmin: true}
+			if (len(wd.Cases)+ti)%2 == 0 {
+				c.Meta.Ident, c.Meta.Email = "oauth-admin", "ops-"+w+"@corp.example.com"
+				c.Call.AEUser, c.Call.AEAdmin, c.Call.OAuth = "", false, &e3OAuth{Email: c.Meta.Email, Admin: true}
+			}
+			hist(c)
+		}
+		agent := func(id c17Ident, ep string) {
+			c := wd.agentCall(id, ep, bt.Rec.ID, "reregistered", pend.RID, "own-pending", bt.Rec.ID)
+			if ep == "pending" {
+				c = wd.agentCall(id, ep, bt.Rec.ID, "reregistered", "", "n/a", "")
+			}
+			hist(c)
+		}
+		client := func(user, tag string) {
+			c := &c17Case{Until: true, Meta: c17Meta{Kind: "user", Endpoint: "client", Ident: tag, Email: user}}
+			c.Call = e3Call{Module: "default", Method: "GET", Path: escPath(bt.Rec.PathPrefixes[len(bt.Rec.PathPrefixes)-1] + "page"), AEUser: user, ReqID: fmt.Sprintf("cl-%s-rr%d-%d", w, ti, step)}
+			hist(c)
+		}
+		agent(oldAgent, "request")
+		agent(oldAgent, "pending")
+		adminPost("add-reregister", newRec)
+		agent(oldAgent, "pending")
+		wd.Cases[len(wd.Cases)-1].Call.CtxMs = 500 // must be rejected at once
+		agent(oldAgent, "request")
+		agent(oldAgent, "response")
+		agent(newAgent, "request")
+		agent(newAgent, "pending") // also makes the backend live again
+		client(oldUser, "former-end-user")
+		client(newRec.EndUser, "new-end-user")
+		agent(newAgent, "response")
+		// unregister, then register the original record again
+		del := &c17Case{Meta: c17Meta{Kind: "admin", Endpoint: "delete", Ident: "ae-admin", IsAdmin: true, Target: bt.Rec.ID, Email: "root-" + w + "@corp.example.com"}}
+		del.Call = e3Call{Module: "api", Method: "DELETE", Path: escPath("/api/backends/" + bt.Rec.ID), AEUser: "root-" + w + "@corp.example.com", AEAdmin: true}
+		hist(del)
+		agent(newAgent, "request")
+		adminPost("add-restore", bt.Rec)
+		agent(newAgent, "request")
+		agent(oldAgent, "request")
+	}
 
 	// admin API
 	admins := []struct {
@@ -468,6 +585,17 @@ func mentions(s, tok string) bool {
 	return strings.Contains(s, q[1:len(q)-1])
 }
 
+// stripMentions removes every mention of tok (raw or %q-quoted) from s, so
+// that an ID that merely begins with another ID is not mistaken for it.
+func stripMentions(s, tok string) string {
+	if tok == "" {
+		return s
+	}
+	q := strconv.Quote(tok)
+	s = strings.ReplaceAll(s, q[1:len(q)-1], "\x00")
+	return strings.ReplaceAll(s, tok, "\x00")
+}
+
 // c17State is the oracle's model of who is registered (evolves in histories).
 type c17State struct {
 	reg     map[string]c17BackendRec
@@ -552,7 +680,7 @@ func (wd *c17World) foreign(x string, keys []string) []string {
 			if wd.owned[y][k] && !wd.owned[x][k] {
 				isBad = true
 			}
-			if mentions(k, y) {
+			if mentions(stripMentions(k, x), y) {
 				isBad = true
 			}
 			for _, rq := range b.Reqs {
@@ -655,6 +783,22 @@ func (wd *c17World) judge(r *core.Run, c *c17Case, res *c17Result, st *c17State)
 		}
 		if bad := wd.foreign(m.Named, append(opKeysOf(res.Ops, false), res.Diff...)); len(bad) > 0 {
 			viol("touches-other-backend:"+m.Endpoint, fmt.Sprintf("%s authorised for backend %q (request ID %s) touched entities of another backend: %v", m.Endpoint, m.Named, m.RIDCls, bad))
+		}
+		if m.RIDCls == "crafted-collision" {
+			// the ID names nothing in the caller's own backend; read across the separator it would name m.Victim of m.RIDOwner
+			what := map[string]string{"request": "served", "response": "answered"}[m.Endpoint]
+			if res.Status/100 == 2 {
+				viol("other-backends-request-"+what+":id-boundary-confusion", fmt.Sprintf("backend %q sent request ID %q and thereby reached request %q of backend %q (status %d)", m.Named, m.RID, m.Victim, m.RIDOwner, res.Status))
+			} else if res.Status != 404 && !m.History {
+				viol("nonexistent-request-not-404:"+m.Endpoint, fmt.Sprintf("backend %q, request ID %q: status %d, want 404", m.Named, m.RID, res.Status))
+			}
+			for _, d := range res.Diff {
+				if wd.owned[m.RIDOwner][strings.TrimLeft(d, "+-~")] {
+					viol("other-backends-request-modified:id-boundary-confusion", fmt.Sprintf("backend %q with request ID %q changed %s, which belongs to backend %q", m.Named, m.RID, d, m.RIDOwner))
+				}
+			}
+			noLeak("cross-backend")
+			return
 		}
 		owner, known := st.reqOf[m.RID]
 		ridOwn := known && owner == m.Named && c.Call.Headers[hdrRequest] != ""
@@ -765,7 +909,7 @@ func (wd *c17World) judge(r *core.Run, c *c17Case, res *c17Result, st *c17State)
 			if len(gm) != len(st.reg) {
 				viol("admin-list-wrong", fmt.Sprintf("%d backends listed, %d registered", len(gm), len(st.reg)))
 			}
-		case "add", "add-takeover", "delete":
+		case "add", "add-takeover", "add-reregister", "add-restore", "delete":
 			if res.Status != 200 {
 				viol("admin-"+m.Endpoint+"-fails", fmt.Sprintf("status %d", res.Status))
 			}
@@ -811,7 +955,7 @@ func (st *c17State) registeredStill(id string) bool { _, ok := st.reg[id]; retur
 func (st *c17State) apply(c *c17Case, res *c17Result) {
 	m := c.Meta
 	switch {
-	case m.Kind == "admin" && res.Status == 200 && (m.Endpoint == "add" || m.Endpoint == "add-takeover"):
+	case m.Kind == "admin" && res.Status == 200 && (m.Endpoint == "add" || m.Endpoint == "add-takeover" || m.Endpoint == "add-reregister" || m.Endpoint == "add-restore"):
 		var rec c17BackendRec
 		if json.Unmarshal([]byte(c.Call.Body), &rec) == nil {
 			st.reg[rec.ID] = rec
